@@ -563,7 +563,14 @@ def native_check(e3, oracle, violation, skel_like=None):
         return False, {'native': 'no panic', 'failing': [ob.name for ob in failing]}
     names = [ob.name for ob in failing]
     if violation['obligation'] in names:
-        ob = [o for o in failing if o.name == violation['obligation']][0]
+        same = [o for o in failing if o.name == violation['obligation']]
+        # several instances of one clause can fail in a module (one per prop, say): confirm the instance the witness is about
+        want = json.dumps(violation.get('info'), sort_keys=True, default=str)
+        exact = [o for o in same if json.dumps(_plain(None, o.info) if o.info else None, sort_keys=True, default=str) == want]
+        if violation.get('info') and not exact and len(same) > 1:
+            key = lambda o: sum(1 for k, v in (violation.get('info') or {}).items() if json.dumps((_plain(None, o.info) or {}).get(k), default=str) == json.dumps(v, default=str))
+            same.sort(key=key, reverse=True)
+        ob = (exact or same)[0]
         return True, {'native': 'oracle fails', 'obligation': ob.name, 'info': _plain(None, ob.info) if ob.info else None, 'code': r.get('code')}
     if names:
         return True, {'native': 'oracle fails (different clause)', 'obligation': names[0], 'code': r.get('code')}
